@@ -85,7 +85,7 @@ func NewConnectionPool(addr, user, password, db string, capacity, maxCapacity in
 		collationID:      collationID,
 		clientCapability: clientCapability,
 		initConnect:      strings.Trim(strings.TrimSpace(initConnect), ";"),
-		lastChecked:      time.Now().Unix(),
+		lastChecked:      timeNow().Unix(),
 		handshakeTimeout: handshakeTimeout,
 	}
 }
@@ -372,7 +372,7 @@ func (cp *connectionPoolImpl) SetLastChecked() {
 	if cp == nil {
 		return
 	}
-	cp.lastChecked = time.Now().Unix()
+	cp.lastChecked = timeNow().Unix()
 }
 
 // GetLastChecked get last checked time
